@@ -512,7 +512,7 @@ def run_k2v2(chk, n_tus, cases_per_tu, scripts_per_case, size_range=(2, 8), cfg=
             while True:
                 g = gen(rng) if gen else Gen2(rng, wsa=cfg.endswith("20"))
                 e = g.expr(rng.randint(*size_range))
-                if not lvalue_lete(e) and not throw_hits_noexcept(e):
+                if not lvalue_lete(e):   # throw_hits_noexcept shapes are allowed since the let_value successor fix in /repo
                     break
             cases.append(e)
         tus.append(cases)
